@@ -6,7 +6,7 @@ Small dense matrices `Eigen::Matrix<T, N, M>` are row-major arrays of `N*M` entr
 `amgcl::math::*_impl` for them are one-line calls into Eigen, modelled by their mathematical definitions:
 
 * `adjoint_impl`        → conjugate transpose            (value_type/eigen.hpp:91-99)
-* `inner_product_impl`  → `x.adjoint() * y`              (101-119; conjugate-linear in the FIRST argument)
+* `inner_product_impl`  → `x.transpose() * y.conjugate()` (101-119; conjugate-linear in the SECOND argument)
 * `norm_impl`           → Frobenius norm, as its square  (121-127)
 * `zero_impl`, `is_zero_impl`, `identity_impl`, `constant_impl` (every entry `c`), `inverse_impl` (129-178)
 * `operator<`           → comparison of traces           (183-186)
@@ -31,8 +31,10 @@ def mul (n k m : Nat) (X Y : Array K) : Array K :=
 def adjoint (conj : K → K) (n m : Nat) (X : Array K) : Array K :=
   Array.ofFn (n := m * n) (fun q => conj (ent m X (q.val % n) (q.val / n)))
 
-/-- `math::inner_product(x, y) = x.adjoint() * y` for `n × m` arguments (an `m × m` matrix; a scalar for `m = 1`) -/
-def innerProduct (conj : K → K) (n m : Nat) (X Y : Array K) : Array K := mul m n m (adjoint conj n m X) Y
+/-- `math::inner_product(x, y) = x.transpose() * y.conjugate()` (`y.dot(x)` for `m = 1`) for `n × m` arguments: an `m × m`
+matrix, a scalar for `m = 1`; conjugate-linear in the SECOND argument (since /repo fix of K27; before: `x.adjoint() * y`) -/
+def innerProduct (conj : K → K) (n m : Nat) (X Y : Array K) : Array K :=
+  mul m n m (adjoint (fun a => a) n m X) (Y.map conj)
 
 /-- `x.squaredNorm()` as a sum of `x_ij * conj x_ij` -/
 def normSq (conj : K → K) (X : Array K) : K := X.toList.foldl (fun acc v => acc + v * conj v) 0
